@@ -93,7 +93,18 @@ impl Utc { #[verifier::external_body] pub fn now() -> DateTime<Utc> { unimplemen
 #[verifier::external_body] pub struct Metrics { _opaque: () }
 #[verifier::external_body] pub struct FilterPolicy { _opaque: () }
 #[verifier::external_body] pub struct Timing { _opaque: () }
-impl PayloadDelta { pub uninterp spec fn serial_spec(&self) -> Serial; }
+impl PayloadDelta {
+    pub uninterp spec fn serial_spec(&self) -> Serial;
+    pub uninterp spec fn is_empty_spec(&self) -> bool;
+
+    // accessors (delta.rs); is_empty/serial read the abstract state, the counts are not constrained
+    #[verifier::external_body]
+    pub fn is_empty(&self) -> (r: bool) ensures r == self.is_empty_spec() { unimplemented!() }
+    #[verifier::external_body]
+    pub fn serial(&self) -> (r: Serial) ensures r == self.serial_spec() { unimplemented!() }
+    #[verifier::external_body] pub fn announce_len(&self) -> usize { unimplemented!() }
+    #[verifier::external_body] pub fn withdraw_len(&self) -> usize { unimplemented!() }
+}
 
 // proved in unit history
 impl PayloadHistory {
@@ -103,6 +114,17 @@ impl PayloadHistory {
     fn rtr_session(&self) -> (res: u16) ensures res == self.session as u16 { unimplemented!() }
     #[verifier::external_body]
     fn is_active(&self) -> (res: bool) ensures res == self.current.is_some() { unimplemented!() }
+    // (the clauses of the unit-history contract that do not speak about data-set contents)
+    #[verifier::external_body]
+    fn delta_since(&self, serial: Serial) -> (res: Option<Arc<PayloadDelta>>)
+        requires self.chain(),
+        ensures
+            res is Some ==> wsub(self.cur().0, serial.0) as int <= self.deltas@.len(),
+            (wsub(self.cur().0, serial.0) == 0 || (wsub(self.cur().0, serial.0) as int) < self.deltas@.len())
+                ==> res is Some,
+            res matches Some(d) ==> d.serial_spec() == self.cur(),
+            res matches Some(d) ==> (serial == self.cur() ==> d.is_empty_spec()),
+    { unimplemented!() }
 }
 
 // ===== the lock, as in units/history_locks/env.rs (readers only)
